@@ -236,6 +236,7 @@ impl GraphEngine {
             pending_label_ops: Vec::new(),
             created_external_ids: std::collections::HashSet::new(),
             memtable: MemTable::default(),
+            pending_vectors: Vec::new(),
         }
     }
 
@@ -767,6 +768,7 @@ pub struct TxnSavepoint {
     pending_label_ops: usize,
     created_external_ids: std::collections::HashSet<ExternalId>,
     memtable: MemTable,
+    pending_vectors: usize,
 }
 
 pub struct WriteTxn<'a> {
@@ -781,6 +783,9 @@ pub struct WriteTxn<'a> {
     pending_label_ops: Vec<(bool, InternalNodeId, LabelId)>,
     created_external_ids: std::collections::HashSet<ExternalId>,
     memtable: MemTable,
+    /// Vectors set in this transaction; they enter the vector index at commit, so that a
+    /// transaction that is dropped or rolled back leaves no trace in vector search.
+    pending_vectors: Vec<(InternalNodeId, Vec<f32>)>,
 }
 
 impl<'a> WriteTxn<'a> {
@@ -816,6 +821,7 @@ impl<'a> WriteTxn<'a> {
             pending_label_ops: self.pending_label_ops.len(),
             created_external_ids: self.created_external_ids.clone(),
             memtable: self.memtable.clone(),
+            pending_vectors: self.pending_vectors.len(),
         }
     }
 
@@ -825,6 +831,7 @@ impl<'a> WriteTxn<'a> {
         self.pending_label_ops.truncate(savepoint.pending_label_ops);
         self.created_external_ids = savepoint.created_external_ids;
         self.memtable = savepoint.memtable;
+        self.pending_vectors.truncate(savepoint.pending_vectors);
     }
 
     pub fn add_node_label(&mut self, node: InternalNodeId, label_id: LabelId) -> Result<()> {
@@ -936,7 +943,8 @@ impl<'a> WriteTxn<'a> {
 
     // T203: HNSW Support
     pub fn set_vector(&mut self, id: InternalNodeId, vector: Vec<f32>) -> Result<()> {
-        self.engine.insert_vector(id, vector)
+        self.pending_vectors.push((id, vector));
+        Ok(())
     }
 
     pub fn commit(self) -> Result<()> {
@@ -1205,7 +1213,7 @@ impl<'a> WriteTxn<'a> {
         let has_label_ops = !self.pending_label_ops.is_empty();
 
         // 3. Apply created nodes to IdMap / Node Index
-        let _publication = self.engine.publish_lock.write().unwrap();
+        let publication = self.engine.publish_lock.write().unwrap();
         {
             let mut idmap = self.engine.idmap.lock().unwrap();
             let mut pager = self.engine.pager.write().unwrap();
@@ -1228,6 +1236,11 @@ impl<'a> WriteTxn<'a> {
 
         if !run.is_empty() {
             self.engine.publish_run(Arc::new(run));
+        }
+        drop(publication);
+
+        for (id, vector) in self.pending_vectors {
+            self.engine.insert_vector(id, vector)?;
         }
 
         self.engine.next_txid.fetch_add(1, Ordering::Relaxed);
